@@ -1,6 +1,7 @@
 import Driver.Util
 import MpcVerif.Model.Gmw
 import MpcVerif.Model.GmwHist
+import MpcVerif.Model.GmwInt
 import MpcVerif.Model.LevelsMod
 
 namespace Drv.C10
@@ -212,6 +213,90 @@ def handleHist (pools : String) (rest : List String) : String :=
         | _ => []
       "|".intercalate (items ++ used)
 
+/-! ### integer inputs (`Model/GmwInt.lean`): the op line carries, per party, the flattened members of its
+argument as `<width>:<signed decimal>;...` - the `*big.Int` values handed to `IOArg.Parse` / `Network.Run` -/
+
+def parseMember (s : String) : Option (Nat × Int) :=
+  match s.splitOn ":" with
+  | [w, v] => do some (← w.toNat?, ← v.toInt?)
+  | _ => none
+
+def parseArgVals (s : String) : Option ArgVals := (s.splitOn ";").mapM parseMember
+
+def parseParties (s : String) : Option (Array ArgVals) := ((splitC s).mapM parseArgVals).map List.toArray
+
+/-- `runi <sizes> <circuit> <ints> <rnd> <pools>`: `run` with the integer input layer (`Gmw.runArgs`). -/
+def handleRunI (sizes nw nin nout gates ints rnd pools : String) : String :=
+  match parseCircuit nw nin nout gates, (splitC sizes).mapM String.toNat?, parseParties ints with
+  | some c, some sizes, some av =>
+    let n := sizes.length
+    let args := fun p => av.getD p []
+    let rndL := ((splitC rnd).map fun s => natOfBits (parseBits s)).toArray
+    match (splitC pools).mapM handleRun.parseState' with
+    | none => "bad-op"
+    | some pl =>
+      if av.size != n || rndL.size != n * n || pl.length != n || argSizes n args != sizes then "bad-op" else
+      let r := fun p q => rndL.getD (p * n + q) 0
+      let pools := fun p => pl.getD p Triples.empty
+      match runArgs c n args r pools with
+      | .unsupported => "unsupported"
+      | .blocked => "blocked"
+      | .ok ps outs =>
+        let used := ",".intercalate (ps.map fun p => toString ((pools p.id).words - p.pool.words))
+        let ws := ",".intercalate (ps.map fun p => storeStr p.wires)
+        let os := ",".intercalate (outs.map bitsStr)
+        s!"lv={levelDigest c};used={used};w={ws};o={os}"
+  | _, _, _ => "bad-op"
+
+def parseCallI (n : Nat) (sizes nw nin nout gates ints rnd : String) : Option CallInt :=
+  match parseCircuit nw nin nout gates, (splitC sizes).mapM String.toNat?, parseParties ints with
+  | some c, some sizes, some av =>
+    let args := fun p => av.getD p []
+    let rndL := ((splitC rnd).map fun s => natOfBits (parseBits s)).toArray
+    if sizes.length != n || av.size != n || rndL.size != n * n || argSizes n args != sizes then none else
+    some { c := c, sizes := sizes, x := fun p => partyValue (args p), rnd := fun p q => rndL.getD (p * n + q) 0 }
+  | _, _, _ => none
+
+def parseCallsI (n : Nat) : List String → Option (List CallInt)
+  | [] => some []
+  | a :: b :: c :: d :: e :: f :: g :: rest => do
+    let k ← parseCallI n a b c d e f g
+    let ks ← parseCallsI n rest
+    some (k :: ks)
+  | _ => none
+
+/-- `histi <pools> <call>*`: `hist` with integer inputs (`Gmw.runHistInt`). -/
+def handleHistI (pools : String) (rest : List String) : String :=
+  match (splitC pools).mapM handleRun.parseState' with
+  | none => "bad-op"
+  | some pl =>
+    let n := pl.length
+    match parseCallsI n rest with
+    | none => "bad-op"
+    | some ks =>
+      let pools := fun p => pl.getD p Triples.empty
+      let rs := runHistInt ks (fresh n pools)
+      let items := histItems (ks.map CallInt.toCall) rs
+      let used := match rs.getLast? with
+        | some (.ok ps _) =>
+          if rs.length == ks.length then
+            ["used=" ++ ",".intercalate (ps.map fun p => toString ((pools p.id).words - p.pool.words))]
+          else []
+        | _ => []
+      "|".intercalate (items ++ used)
+
+/-- `lvli <sizes> <circuit> <ints>`: `lvl` with integer inputs: every party's output is `compute` on the members'
+`Bit`s (`encodeArg`, the wire assignment of `Circuit.Compute`). -/
+def handleLvlI (sizes nw nin nout gates ints : String) : String :=
+  match parseCircuit nw nin nout gates, (splitC sizes).mapM String.toNat?, parseParties ints with
+  | some c, some sz, some av =>
+    let lv := c.assignLevels true
+    let topo := if topoCheck c.numWires (c.gates.zip lv.1) then "1" else "0"
+    if av.size != sz.length || argSizes sz.length (fun p => av.getD p []) != sz then "bad-op" else
+    let o := bitsStr (c.computeFast (encodeArg av.toList.flatten))
+    s!"lv={levelDigest c};topo={topo};o={",".intercalate (sz.map fun _ => o)}"
+  | _, _, _ => "bad-op"
+
 def handleTb (n words as bs ss rs ds : String) : String :=
   match n.toNat?, words.toNat?, (splitC as).mapM parseWords, (splitC bs).mapM parseWords,
       (splitC ss).mapM parseWords, (splitC rs).mapM parseWords with
@@ -231,6 +316,9 @@ def handle (args : List String) : String :=
   match args with
   | ["run", sizes, nw, nin, nout, gates, xs, rnd, pools] => handleRun sizes nw nin nout gates xs rnd pools
   | "hist" :: pools :: rest => handleHist pools rest
+  | ["runi", sizes, nw, nin, nout, gates, ints, rnd, pools] => handleRunI sizes nw nin nout gates ints rnd pools
+  | "histi" :: pools :: rest => handleHistI pools rest
+  | ["lvli", sizes, nw, nin, nout, gates, ints] => handleLvlI sizes nw nin nout gates ints
   | ["lvl", sizes, nw, nin, nout, gates, xs] => handleLvl sizes nw nin nout gates xs
   | ["tb", n, words, as, bs, ss, rs, ds] => handleTb n words as bs ss rs ds
   | ["app", dst, src, n] =>
